@@ -220,3 +220,28 @@ Definition Z_of_dec (s : str) : Z :=
   | c :: s' => if Ascii.eqb c "-"%char then - Z.of_N (N_of_dec s') else Z.of_N (N_of_dec s)
   | [] => 0
   end.
+
+(** ---- additions for C10 (shape-map / selector parsing) ---- *)
+
+(** [str.lower()] on ASCII letters (non-ASCII bytes unchanged) *)
+Definition lower_ascii (c : ascii) : ascii :=
+  let n := nat_of_ascii c in
+  if Nat.leb 65 n && Nat.leb n 90 then ascii_of_nat (n + 32) else c.
+
+Definition lower (s : str) : str := map lower_ascii s.
+
+(** [s.count(c)] for a one-character pattern *)
+Definition count_char (c : ascii) (s : str) : nat :=
+  List.length (filter (fun x => Ascii.eqb x c) s).
+
+(** [re.compile(" +").sub(" ", s)]: every run of blanks becomes one blank *)
+Fixpoint collapse_blanks_aux (prev_blank : bool) (s : str) : str :=
+  match s with
+  | [] => []
+  | c :: s' =>
+    if Ascii.eqb c " "%char
+    then if prev_blank then collapse_blanks_aux true s' else c :: collapse_blanks_aux true s'
+    else c :: collapse_blanks_aux false s'
+  end.
+
+Definition collapse_blanks (s : str) : str := collapse_blanks_aux false s.
